@@ -19,6 +19,7 @@
   reversal it shares with LAST_VALUE is harmless: `lead_spec` holds in full.
 -/
 import Csvq.Lemmas.Analytic
+import Csvq.Gen.AnalyticFacts
 namespace Csvq.C17
 open Csvq Csvq.Analytic
 
@@ -508,12 +509,13 @@ theorem usual_frames_not_inverted (len a b : Nat) :
     NoInvertedFrame (.between .unboundedPreceding .unboundedFollowing) len := by
   refine ⟨?_, ?_, ?_, ?_, ?_, ?_, ?_, ?_, ?_⟩ <;> intro k hk <;> simp [frameBounds, frameIndex] <;> omega
 
-/-- `SUM(x) OVER (ORDER BY k ROWS BETWEEN 2 FOLLOWING AND UNBOUNDED FOLLOWING)` — a frame that is
-    merely EMPTY for the last row — makes windowValues panic (Fatal Error) instead of aggregating no cells -/
+/-- before the repair `COUNT(x) OVER (ORDER BY k ROWS BETWEEN CURRENT ROW AND 3 PRECEDING)` — a frame that is
+    merely EMPTY — made windowValues panic (Fatal Error) instead of aggregating no cells (at the time, with the
+    unclamped frame positions, so did `BETWEEN 2 FOLLOWING AND UNBOUNDED FOLLOWING` on the last rows) -/
 theorem agg_over_counterexample :
-    aggOver exCells (fun _ vs => vs.length) (.between (.following 2) .unboundedFollowing) [0, 1, 2] = none ∧
-    perRow (aggSpec exCells (fun _ vs => vs.length) (.between (.following 2) .unboundedFollowing)) [] [0, 1, 2]
-      = [(0, 1), (1, 0), (2, 0)] := by
+    aggOver exCells (fun _ vs => vs.length) (.between .currentRow (.preceding 3)) [0, 1, 2] = none ∧
+    perRow (aggSpec exCells (fun _ vs => vs.length) (.between .currentRow (.preceding 3))) [] [0, 1, 2]
+      = [(0, 0), (1, 0), (2, 0)] := by
   constructor <;> decide
 
 /-- LISTAGG / JSON_AGG … OVER: every row receives the cells of its whole partition, in partition order -/
@@ -642,6 +644,253 @@ theorem other_columns_unchanged {γ : Type} (rows : List (List γ)) (col : List 
   refine ⟨col[i], List.getElem?_eq_getElem hc, ?_⟩
   unfold appendColumn
   rw [List.getElem?_zipWith, hr, List.getElem?_eq_getElem hc]
+
+/-! ## the model IS the source: definitions translated from analytic_function.go on every run
+
+  `Csvq/Gen/AnalyticFacts.lean` is regenerated by /verif/extract/analyticfacts from the Go source before this
+  file is built.  The theorems below state, for all inputs, that the hand-written model (on which every
+  theorem above rests) computes what the translated code computes — frame positions, the decision structure
+  of WindowFrameSet, every loop round of the counters, NTILE, setNthValue, setLag — and that the parts of the
+  source the translator does not turn into arithmetic (Boolean conditions that became parameters, statements
+  kept as text, the registration tables and grammar productions) are the reviewed ones. -/
+
+section generated
+open Csvq.Gen
+
+/-- parser.WindowFramePosition of a frame bound -/
+def posOf : Bound → An.Pos
+  | .unboundedPreceding => ⟨.preceding, true, 0⟩
+  | .preceding n => ⟨.preceding, false, n⟩
+  | .currentRow => ⟨.current, false, 0⟩
+  | .following n => ⟨.following, false, n⟩
+  | .unboundedFollowing => ⟨.following, true, 0⟩
+
+/-- `frameIndex` as it stands in the source is the model's `frameIndex`, for every row, partition length
+    and frame bound -/
+theorem gen_frameIndex (c len : Nat) (b : Bound) :
+    An.frameIndex c len (posOf b) = frameIndex c len b := by
+  cases b with
+  | unboundedPreceding => simp [An.frameIndex, An.frameIndexC, posOf, frameIndex]
+  | currentRow => simp [An.frameIndex, An.frameIndexC, posOf, frameIndex]
+  | unboundedFollowing => simp [An.frameIndex, An.frameIndexC, posOf, frameIndex]
+  | preceding n =>
+    by_cases h : (c : Int) < (n : Int) <;> simp [An.frameIndex, An.frameIndexC, posOf, frameIndex, h]
+  | following n =>
+    by_cases h : (len : Int) - (c : Int) ≤ (n : Int) <;> simp [An.frameIndex, An.frameIndexC, posOf, frameIndex, h]
+
+theorem frameRecords_low_outside (p : List Nat) (lo lo' hi : Int)
+    (h : lo = lo' ∨ (lo < 0 ∧ lo' < 0) ∨ ((p.length : Int) ≤ lo ∧ (p.length : Int) ≤ lo')) :
+    frameRecords p lo hi = frameRecords p lo' hi := by
+  unfold frameRecords
+  have h1 := Int.toNat_eq_max lo
+  have h2 := Int.toNat_eq_max lo'
+  have h3 := Int.toNat_eq_max (hi + 1)
+  generalize lo.toNat = A at *
+  generalize lo'.toNat = B at *
+  generalize (hi + 1).toNat = C at *
+  apply take_drop_congr
+  omega
+
+theorem frameRecords_high_outside (p : List Nat) (lo hi hi' : Int)
+    (h : hi = hi' ∨ (hi < 0 ∧ hi' < 0) ∨ ((p.length : Int) - 1 ≤ hi ∧ (p.length : Int) - 1 ≤ hi')) :
+    frameRecords p lo hi = frameRecords p lo hi' := by
+  unfold frameRecords
+  have h1 := Int.toNat_eq_max lo
+  have h2 := Int.toNat_eq_max (hi + 1)
+  have h3 := Int.toNat_eq_max (hi' + 1)
+  generalize lo.toNat = A at *
+  generalize (hi + 1).toNat = B at *
+  generalize (hi' + 1).toNat = C at *
+  apply take_drop_congr
+  omega
+
+theorem frameIndex_outside (k len : Nat) (b : Bound) :
+    frameIndex k len b = frameIndexPlain k len b ∨
+      (frameIndex k len b < 0 ∧ frameIndexPlain k len b < 0) ∨
+      ((len : Int) ≤ frameIndex k len b ∧ (len : Int) ≤ frameIndexPlain k len b) := by
+  cases b with
+  | unboundedPreceding => exact Or.inl rfl
+  | currentRow => exact Or.inl rfl
+  | unboundedFollowing => exact Or.inl rfl
+  | preceding n => simp only [frameIndex, frameIndexPlain]; split <;> omega
+  | following n => simp only [frameIndex, frameIndexPlain]; split <;> omega
+
+/-- the clamping the source applies to frame positions does not change any frame: the visited records are
+    those of the textbook positions `current − n … current + n` -/
+theorem frame_positions_textbook (p : List Nat) (k : Nat) (lo hi : Bound) :
+    frameRecords p (frameIndex k p.length lo) (frameIndex k p.length hi)
+      = frameRecords p (frameIndexPlain k p.length lo) (frameIndexPlain k p.length hi) := by
+  rw [frameRecords_low_outside p _ (frameIndexPlain k p.length lo) _ (frameIndex_outside k p.length lo)]
+  apply frameRecords_high_outside
+  rcases frameIndex_outside k p.length hi with h | h | h
+  · exact Or.inl h
+  · exact Or.inr (Or.inl h)
+  · exact Or.inr (Or.inr ⟨by omega, by omega⟩)
+
+/-- (hasOrder, hasWindow, hasHigh, FrameLow, FrameHigh) of an analytic clause -/
+def clauseOf : Window → Bool × Bool × Bool × An.Pos × An.Pos
+  | .noOrder => (false, false, false, ⟨.current, false, 0⟩, ⟨.current, false, 0⟩)
+  | .orderOnly => (true, false, false, ⟨.current, false, 0⟩, ⟨.current, false, 0⟩)
+  | .rows lo => (true, true, false, posOf lo, ⟨.current, false, 0⟩)
+  | .between lo hi => (true, true, true, posOf lo, posOf hi)
+
+/-- the decision structure of `WindowFrameSet` as it stands in the source (no ORDER BY → one frame; no
+    windowing clause → UNBOUNDED PRECEDING … current; `ROWS lo` → lo … current; UNBOUNDED PRECEDING …
+    UNBOUNDED FOLLOWING → one frame; otherwise one frame per row) is the model's `windowFrameSet` -/
+theorem gen_windowFrameSet (p : List Nat) (w : Window) :
+    windowFrameSet p w =
+      match An.windowFrameSet p.length (clauseOf w).1 (clauseOf w).2.1 (clauseOf w).2.2.1 (clauseOf w).2.2.2.1 (clauseOf w).2.2.2.2 with
+      | .single => singleFrameSet p
+      | .perRow lo hi => perRowFrames p (fun c => lo c) (fun c => hi c) := by
+  cases w with
+  | noOrder => simp [An.windowFrameSet, clauseOf, windowFrameSet]
+  | orderOnly =>
+    simp only [An.windowFrameSet, clauseOf, windowFrameSet]
+    simp [← gen_frameIndex, posOf]
+  | rows lo =>
+    simp only [An.windowFrameSet, clauseOf, windowFrameSet]
+    simp [← gen_frameIndex]
+  | between lo hi =>
+    cases lo <;> cases hi <;> simp only [An.windowFrameSet, clauseOf, windowFrameSet, posOf] <;>
+      simp [← gen_frameIndex, posOf]
+
+/-- `singleFrameSet`: Low = 0, High = len − 1 -/
+theorem gen_singleFrame (p : List Nat) :
+    singleFrameSet p = [⟨(An.singleFrame p.length).1, (An.singleFrame p.length).2, p⟩] := rfl
+
+/-- `windowValues` (since the repair): the capacity handed to `make` is never negative, and a position
+    outside the partition is skipped -/
+theorem gen_windowCapacity (lo hi : Int) :
+    (An.windowCapacity lo hi).2 = max 0 (hi - lo + 1) ∧ 0 ≤ (An.windowCapacity lo hi).2 := by
+  unfold An.windowCapacity
+  split <;> simp_all <;> omega
+
+theorem gen_windowValues_step (i len : Int) :
+    An.windowValuesStep i len = (if i < 0 ∨ len ≤ i then .cont else .fall) := by
+  unfold An.windowValuesStep
+  by_cases h1 : i < 0 <;> by_cases h2 : len ≤ i <;> simp [h1, h2]
+
+/-! counters: one round of each loop -/
+
+theorem gen_rowNumber_step (idx : Nat) (rest : List Nat) (number : Nat) :
+    An.rowNumberStepInit = (.fall, 0) ∧
+    An.rowNumberStep number = (.fall, ((number + 1 : Nat) : Int), ((number + 1 : Nat) : Int)) ∧
+    rowNumberLoop (idx :: rest) number = (idx, number + 1) :: rowNumberLoop rest (number + 1) := by
+  refine ⟨rfl, ?_, rfl⟩
+  simp [An.rowNumberStep]
+
+/-- RANK: `newGroup` is the source's `sortValuesInEachRecord == nil || !…EquivalentTo(currentRank)` -/
+theorem gen_rank_step (eqv : Nat → Nat → Bool) (idx : Nat) (rest : List Nat) (number rank : Nat) (cur : Option Nat) (hasOrder : Bool) :
+    An.rankStepInit = (.fall, 0, 0) ∧
+    rankLoop eqv (idx :: rest) number rank cur =
+      (idx, (An.rankStep number rank (!sameRank eqv idx cur) hasOrder).2.2.2.toNat) ::
+        rankLoop eqv rest (An.rankStep number rank (!sameRank eqv idx cur) hasOrder).2.1.toNat
+          (An.rankStep number rank (!sameRank eqv idx cur) hasOrder).2.2.1.toNat
+          (if sameRank eqv idx cur then cur else some idx) := by
+  refine ⟨rfl, ?_⟩
+  cases h : sameRank eqv idx cur <;> simp [rankLoop, An.rankStep, h] <;>
+    (try (have : ((number : Int) + 1).toNat = number + 1 := by omega)) <;> simp_all
+
+theorem gen_denseRank_step (eqv : Nat → Nat → Bool) (idx : Nat) (rest : List Nat) (rank : Nat) (cur : Option Nat) (hasOrder : Bool) :
+    An.denseRankStepInit = (.fall, 0) ∧
+    denseLoop eqv (idx :: rest) rank cur =
+      (idx, (An.denseRankStep rank (!sameRank eqv idx cur) hasOrder).2.2.toNat) ::
+        denseLoop eqv rest (An.denseRankStep rank (!sameRank eqv idx cur) hasOrder).2.1.toNat
+          (if sameRank eqv idx cur then cur else some idx) := by
+  refine ⟨rfl, ?_⟩
+  cases h : sameRank eqv idx cur <;> simp [denseLoop, An.denseRankStep, h] <;>
+    (try (have : ((rank : Int) + 1).toNat = rank + 1 := by omega)) <;> simp_all
+
+/-- perseCumulativeGroups is list code; its two branches (open a group / append to the last group) and the
+    condition that selects them are the reviewed ones -/
+theorem gen_groups_reviewed :
+    An.groupStepConds = ["newGroup: view.sortValuesInEachRecord == nil || !view.sortValuesInEachRecord[idx].EquivalentTo(currentRank)", "hasOrder: view.sortValuesInEachRecord != nil"] ∧
+    An.groupStepEffects = ["newGroup ⊢ groups = append(groups, []int{idx})", "newGroup & hasOrder ⊢ currentRank = view.sortValuesInEachRecord[idx]", "!newGroup ⊢ groups[len(groups)-1] = append(groups[len(groups)-1], idx)"] ∧
+    An.groupStepInitEffects = ["groups := make([][]int, 0)", "var currentRank SortValues"] ∧
+    An.groupStepLoop = "for _, idx := range partition" ∧ An.groupStepAfter = ["return groups"] :=
+  ⟨rfl, rfl, rfl, rfl, rfl⟩
+
+/-- CUME_DIST: one group — the exact fraction (cumulative + len(group)) / len(partition) -/
+theorem gen_cumeDist_step (total : Nat) (g : List Nat) (gs : List (List Nat)) (cumulative : Nat) (len gl : Nat) :
+    An.cumeDistStepInit gl len = (.fall, (len : Int), 0) ∧
+    An.cumeDistStep total cumulative g.length len
+      = (.fall, (total : Int), ((cumulative + g.length : Nat) : Int), (((cumulative + g.length : Nat) : Int), (total : Int))) ∧
+    cumeLoop total (g :: gs) cumulative
+      = g.map (fun idx => (idx, (cumulative + g.length, total))) ++ cumeLoop total gs (cumulative + g.length) := by
+  refine ⟨rfl, ?_, rfl⟩
+  simp [An.cumeDistStep]
+
+/-- PERCENT_RANK: one group — cumulative / (len − 1), or 1 when there is a single row -/
+theorem gen_percentRank_step (len : Nat) (g : List Nat) (gs : List (List Nat)) (cumulative : Nat) (gl : Nat) :
+    An.percentRankStepInit gl len = (.fall, (len : Int) - 1, 0) ∧
+    (An.percentRankStep ((len : Int) - 1) cumulative g.length len).2.2.2
+      = (if 1 < len then ((cumulative : Int), ((len - 1 : Nat) : Int)) else (1, 1)) ∧
+    (An.percentRankStep ((len : Int) - 1) cumulative g.length len).2.2.1 = ((cumulative + g.length : Nat) : Int) ∧
+    percentLoop len (g :: gs) cumulative
+      = g.map (fun idx => (idx, if 1 < len then (cumulative, len - 1) else (1, 1))) ++ percentLoop len gs (cumulative + g.length) := by
+  refine ⟨rfl, ?_, ?_, rfl⟩
+  · unfold An.percentRankStep
+    by_cases h : 1 < len
+    · have h' : (0 : Int) < (len : Int) - 1 := by omega
+      have e : ((len - 1 : Nat) : Int) = (len : Int) - 1 := by omega
+      simp only [h', decide_true, if_true, h, e]
+    · have h' : ¬ (0 : Int) < (len : Int) - 1 := by omega
+      simp only [h', decide_false, Bool.false_eq_true, if_false, h]
+  · unfold An.percentRankStep
+    split <;> simp
+
+/-! NTILE -/
+
+theorem gen_ntile_rejects (n : Int) (p : List Nat) : An.ntileRejects n = true ↔ ntile n p = none := by
+  simp [An.ntileRejects, ntile]
+
+theorem gen_ntileParams (total n : Nat) (hn : 1 ≤ n) :
+    An.ntileParams n total = (.fall, ((ntileParams total n).1 : Int), ((ntileParams total n).2 : Int)) := by
+  unfold An.ntileParams ntileParams
+  have e1 : Int.tdiv (total : Int) (n : Int) = ((total / n : Nat) : Int) := by
+    rw [Int.tdiv_eq_ediv_of_nonneg (by omega)]; rfl
+  have e2 : Int.tmod (total : Int) (n : Int) = ((total % n : Nat) : Int) := by
+    rw [Int.tmod_eq_emod_of_nonneg (by omega)]; rfl
+  rw [e1, e2]
+  by_cases h : total / n < 1
+  · have h' : ((total / n : Nat) : Int) < 1 := by omega
+    simp only [h', decide_true, if_true, h]; rfl
+  · have h' : ¬ ((total / n : Nat) : Int) < 1 := by omega
+    simp only [h', decide_false, Bool.false_eq_true, if_false, h]
+
+theorem gen_ntile_step (perTile idx : Nat) (rest : List Nat) (tile count mod : Nat) :
+    An.ntileInit = (.fall, 1, 0) ∧
+    ntileLoop perTile (idx :: rest) tile count mod =
+      (idx, (An.ntileStep perTile tile count mod).2.2.2.2.toNat) ::
+        ntileLoop perTile rest (An.ntileStep perTile tile count mod).2.1.toNat
+          (An.ntileStep perTile tile count mod).2.2.1.toNat (An.ntileStep perTile tile count mod).2.2.2.1.toNat := by
+  refine ⟨rfl, ?_⟩
+  unfold An.ntileStep
+  simp only [ntileLoop]
+  by_cases hA : perTile + 1 < count + 1
+  · have : ((perTile : Int) + 1 < (count : Int) + 1) := by omega
+    simp only [hA, this, decide_true, if_true]
+    have e : ((tile : Int) + 1).toNat = tile + 1 := by omega
+    simp [e]
+  · have nA : ¬ ((perTile : Int) + 1 < (count : Int) + 1) := by omega
+    simp only [hA, nA, decide_false, if_false, Bool.false_eq_true]
+    by_cases hB : perTile + 1 = count + 1
+    · have : ((perTile : Int) + 1 = (count : Int) + 1) := by omega
+      simp only [hB, this, decide_true, if_true]
+      by_cases hm : 0 < mod
+      · have : (0 : Int) < (mod : Int) := by omega
+        have e1 : ((count : Int) + 1).toNat = count + 1 := by omega
+        have e2 : ((mod : Int) - 1).toNat = mod - 1 := by omega
+        simp [hm, this, e1, e2]
+      · have : ¬ (0 : Int) < (mod : Int) := by omega
+        have e : ((tile : Int) + 1).toNat = tile + 1 := by omega
+        simp [hm, this, e]
+    · have : ¬ ((perTile : Int) + 1 = (count : Int) + 1) := by omega
+      have e1 : ((count : Int) + 1).toNat = count + 1 := by omega
+      have hB' : ¬ perTile = count := by omega
+      simp [hB', this, e1]
+
+end generated
 
 /-! ## non-vacuity -/
 
